@@ -5,12 +5,19 @@ import Mathlib.Algebra.Field.Defs
   C11: the guards of the driver ops `fit.icurve`, `fit.isurf`, `fit.acurve`, `fit.asurf` (`Driver/Fitting.lean`) as
   hypothesis bundles – the inputs on which the real `fitting.*` routine reaches the solver instead of raising
   (`ValueError` for degree 0 / too few points, `IndexError` for two control points in a direction (finding F-11a) or a
-  short data list, `ZeroDivisionError` in `compute_params_curve` for a data line of total chord length 0 or for more
-  control points than data points).  The chord lists are the ones the code computes itself from the data: one list
+  short data list, `ZeroDivisionError` in `compute_params_curve` for a data line of total chord length 0, and – in
+  exact arithmetic – `ZeroDivisionError` in the solver for more control points than data points (in plain doubles
+  `approximate_curve(5 points, 2, ctrlpts_size=6)` RETURNS a meaningless curve instead), `ValueError` of
+  `linalg.point_distance` for data points of different lengths, `GeomdlException` "should be at least 2-dimensional"
+  of the control point setter for points with fewer than 2 coordinates: `RectData`).  The chord lists are the ones the code computes itself from the data: one list
   per data line, one chord per consecutive pair.
 -/
 namespace Geomdl
 variable {K : Type} [Field K]
+
+/-- the data points all have the same number `d ≥ 2` of coordinates (ragged data: `point_distance` raises `ValueError`;
+    1-D / 0-D data: "A curve / surface should be at least 2-dimensional") -/
+def RectData (pts : List (List K)) : Prop := ∃ d, 2 ≤ d ∧ ∀ pt ∈ pts, pt.length = d
 
 /-- `fit.icurve`: degree ≥ 1, at least `p + 1` points, one chord per consecutive pair, total chord length ≠ 0 -/
 structure InterpCurveOk (p : ℕ) (pts : List (List K)) (cds : List K) : Prop where
@@ -18,6 +25,7 @@ structure InterpCurveOk (p : ℕ) (pts : List (List K)) (cds : List K) : Prop wh
   pn : p + 1 ≤ pts.length
   len : cds.length + 1 = pts.length
   chord : sumL cds ≠ 0
+  rect : RectData pts
 
 /-- `fit.isurf`: degrees ≥ 1, at least `p + 1` points per direction, `su·sv` data points, one chord list per data
     line (`sv` lists of `su - 1` chords, `su` lists of `sv - 1` chords), every total chord length ≠ 0 -/
@@ -29,6 +37,7 @@ structure InterpSurfOk (pu pv su sv : ℕ) (pts : List (List K)) (cdsU cdsV : Li
   len : pts.length = su * sv
   cu : cdsU.length = sv ∧ ∀ c ∈ cdsU, c.length + 1 = su ∧ sumL c ≠ 0
   cv : cdsV.length = su ∧ ∀ c ∈ cdsV, c.length + 1 = sv ∧ sumL c ≠ 0
+  rect : RectData pts
 
 /-- `fit.acurve`: degree ≥ 1, `max(p + 1, 3) ≤ nc ≤` number of data points, chords as above -/
 structure ApproxCurveOk (p : ℕ) (pts : List (List K)) (cds : List K) (nc : ℕ) : Prop where
@@ -38,6 +47,7 @@ structure ApproxCurveOk (p : ℕ) (pts : List (List K)) (cds : List K) (nc : ℕ
   nd : nc ≤ pts.length
   len : cds.length + 1 = pts.length
   chord : sumL cds ≠ 0
+  rect : RectData pts
 
 /-- `fit.asurf`: the same per direction, `su·sv` data points -/
 structure ApproxSurfOk (pu pv su sv : ℕ) (pts : List (List K)) (cdsU cdsV : List (List K)) (ncu ncv : ℕ) : Prop where
@@ -52,5 +62,6 @@ structure ApproxSurfOk (pu pv su sv : ℕ) (pts : List (List K)) (cdsU cdsV : Li
   len : pts.length = su * sv
   cu : cdsU.length = sv ∧ ∀ c ∈ cdsU, c.length + 1 = su ∧ sumL c ≠ 0
   cv : cdsV.length = su ∧ ∀ c ∈ cdsV, c.length + 1 = sv ∧ sumL c ≠ 0
+  rect : RectData pts
 
 end Geomdl
